@@ -520,19 +520,31 @@ def late_stream(chk, binary):
     except common.ImplCrash as e:
         chk.monitor_fail("late-crash", case, str(e)[-400:], "the hand-over-before-tick scenario crashed or hung")
         return
-    mo = re.match(r"conclusive=(\d+) postponed=(\d+) first=(-?\d+)$", out)
+    mo = re.match(r"conclusive=(\d+) postponed=(\d+) first=(-?\d+) pairs=(\d+) alone_postponed=(\d+) burst=(\d+) burst_postponed=(\d+)$", out)
     if not mo:
         chk.monitor_fail("late-crash", case, out[:300], "no result from the hand-over-before-tick scenario")
         return
-    conclusive, postponed, first = map(int, mo.groups())
+    conclusive, postponed, first, pairs, alone, burst, burstp = map(int, mo.groups())
     chk.count_case("handed-over-before-the-tick-is-handled", case, conclusive > 0)
-    chk.cov["handed_over_before_tick"] = dict(conclusive=conclusive, postponed=postponed)
+    chk.cov["handed_over_before_tick"] = dict(conclusive=conclusive, postponed=postponed, pairs=pairs, alone_postponed=alone,
+                                              burst=burst, burst_postponed=burstp)
     chk.sample(dict(stream="handed-over-before-the-tick-is-handled", case=case, impl=out), limit=10)
     if postponed:
         chk.monitor_fail("late", case, out,
                          "%d of %d tasks handed to SendDelayed (delay 0) at a tick instant, BEFORE the scheduler had handled that tick (a task due "
                          "at that tick had not been placed yet), were postponed to the next tick: placed %d ns after their deadline, not less than one tick (1 s)"
                          % (postponed, conclusive, first))
+    elif pairs >= 4 and alone == pairs:
+        # the same wake-up configurations without the witness: the request is the only outstanding one (empty heap when
+        # the tick is handled). All of them postponed although every configuration handed over before the tick when the
+        # witness was there: the wake-up order does not depend on the witness (it creates no timer).
+        chk.monitor_fail("late", case, out,
+                         "in all %d wake-up configurations in which the hand-over precedes the handling of the tick (shown by the run with a witness task), "
+                         "the same delay-0 request sent as the ONLY outstanding one was placed a whole tick (1 s) after its deadline" % pairs)
+    elif burst >= 129 and burstp:
+        chk.monitor_fail("late", case, out,
+                         "%d delay-0 requests were started back to back at a tick instant before the scheduler had handled that tick (more than the 128 the "
+                         "hand-over channel buffers); %d of them were placed a whole tick (1 s) after their deadline" % (burst, burstp))
 
 
 def run(chk):
